@@ -312,6 +312,142 @@ theorem ckey_eq_iff (a b : CompositeKey) : CompositeKey.eq a b = true ↔ (a.kin
   unfold CompositeKey.eq
   rw [Bool.and_eq_true, beq_iff_eq, eq_iff_canon]
 
+/-! ## the operators and provided methods agree with `==` and `cmp` -/
+
+/-- `a != b` exactly when `a.cmp(b)` is not `Equal` (so `!=` and `==` are never both true or both false, and `!=`
+    ignores label order exactly where `==` does) -/
+theorem ne_iff_cmp_ne (a b : Key) : Key.ne a b = true ↔ Key.cmp a b ≠ .eq := by
+  have h := eq_iff_cmp_eq a b
+  cases he : Key.eq a b <;> simp_all [Key.ne]
+
+/-- `partial_cmp` is `Some(cmp)`; `<`, `<=`, `>`, `>=` are the four readings of `cmp` -/
+theorem ops_read_cmp (a b : Key) :
+    Key.partialCmp a b = some (Key.cmp a b)
+    ∧ (Key.lt a b = true ↔ Key.cmp a b = .lt) ∧ (Key.gt a b = true ↔ Key.cmp a b = .gt)
+    ∧ (Key.le a b = true ↔ Key.cmp a b ≠ .gt) ∧ (Key.ge a b = true ↔ Key.cmp a b ≠ .lt) := by
+  refine ⟨rfl, ?_, ?_, ?_, ?_⟩ <;> cases hc : Key.cmp a b <;> simp [Key.lt, Key.gt, Key.le, Key.ge, Key.partialCmp, hc]
+
+/-- `a <= b` is `a < b || a == b`, `a >= b` is `a > b || a == b` (the operators of `PartialOrd` and the `==` of
+    `PartialEq` are two different impls in key.rs; that they fit together is the coherence law again) -/
+theorem le_iff_lt_or_eq (a b : Key) :
+    Key.le a b = (Key.lt a b || Key.eq a b) ∧ Key.ge a b = (Key.gt a b || Key.eq a b) := by
+  have h := eq_iff_cmp_eq a b
+  constructor <;> cases hc : Key.cmp a b <;> cases he : Key.eq a b <;>
+    simp_all [Key.le, Key.lt, Key.ge, Key.gt, Key.partialCmp]
+
+/-- `a > b` is `b < a`, `a >= b` is `b <= a` -/
+theorem gt_is_lt_swapped (a b : Key) : Key.gt a b = Key.lt b a ∧ Key.ge a b = Key.le b a := by
+  have h := cmp_swap a b
+  constructor <;> cases hc : Key.cmp a b <;> simp_all [Key.gt, Key.lt, Key.ge, Key.le, Key.partialCmp, Ordering.swap]
+
+/-- exactly one of `a < b`, `a == b`, `a > b` -/
+theorem trichotomy (a b : Key) :
+    (Key.lt a b = true ∧ Key.eq a b = false ∧ Key.gt a b = false)
+    ∨ (Key.lt a b = false ∧ Key.eq a b = true ∧ Key.gt a b = false)
+    ∨ (Key.lt a b = false ∧ Key.eq a b = false ∧ Key.gt a b = true) := by
+  have h := eq_iff_cmp_eq a b
+  cases hc : Key.cmp a b <;> cases he : Key.eq a b <;> simp_all [Key.lt, Key.gt, Key.partialCmp]
+
+/-- `max` and `min` return the two arguments, one each (for equal keys: `min` the first, `max` the second) -/
+theorem max_min_pick (a b : Key) :
+    (Key.min a b = a ∧ Key.max a b = b) ∨ (Key.min a b = b ∧ Key.max a b = a) := by
+  cases hc : Key.cmp a b <;> simp [Key.min, Key.max, hc]
+
+/-- `min(a, b) <= max(a, b)`, and both are symmetric up to `==` -/
+theorem min_le_max (a b : Key) :
+    Key.le (Key.min a b) (Key.max a b) = true
+    ∧ Key.eq (Key.max a b) (Key.max b a) = true ∧ Key.eq (Key.min a b) (Key.min b a) = true := by
+  have hs := cmp_swap a b
+  have hab := eq_iff_cmp_eq a b
+  have hba := eq_iff_cmp_eq b a
+  have ra := eq_refl a
+  have rb := eq_refl b
+  have ca := (eq_iff_cmp_eq a a).1 ra
+  have cb := (eq_iff_cmp_eq b b).1 rb
+  cases hc : Key.cmp a b <;>
+    simp_all [Key.min, Key.max, Key.le, Key.partialCmp, Ordering.swap]
+
+/-- `x.clamp(lo, hi)` with `lo <= hi` lies between `lo` and `hi` and is `x` itself whenever `x` already does -/
+theorem clamp_between (x lo hi : Key) (h : Key.cmp lo hi ≠ .gt) :
+    Key.cmp lo (Key.clamp x lo hi) ≠ .gt ∧ Key.cmp (Key.clamp x lo hi) hi ≠ .gt
+    ∧ (Key.cmp lo x ≠ .gt → Key.cmp x hi ≠ .gt → Key.clamp x lo hi = x) := by
+  have s1 := cmp_swap x lo
+  have rlo := (eq_iff_cmp_eq lo lo).1 (eq_refl lo)
+  have rhi := (eq_iff_cmp_eq hi hi).1 (eq_refl hi)
+  unfold Key.clamp
+  cases h1 : Key.cmp x lo <;> cases h2 : Key.cmp x hi <;>
+    simp_all [Key.lt, Key.gt, Key.partialCmp, Ordering.swap]
+
+/-! ## construction paths: whatever sequence of constructors, `with_extra_labels`, `clone`, `into_parts` round trips
+and earlier `get_hash()` calls produced a key, its content is the labels given, in the order given, its memo is
+never wrong, and `get_hash()` is the hash of the content -/
+
+/-- a path builds the content it was given: names and labels in the order supplied, extra labels appended -/
+theorem path_content (H : List Write → Nat) (p : Path) : (p.build H).key = p.content := by
+  induction p with
+  | fromParts n ls => rfl
+  | fromStatic n ls => rfl
+  | withExtra p extra ih =>
+    cases extra with
+    | nil => simp [Path.build, Path.content, RKey.withExtraLabels, RKey.clone, ih]
+    | cons e es => simp [Path.build, Path.content, RKey.withExtraLabels, RKey.builder, ih]
+  | clone p ih => simpa [Path.build, Path.content, RKey.clone] using ih
+  | hashed p ih =>
+    simp only [Path.build, Path.content, RKey.getHash]
+    split <;> simpa using ih
+  | reparts p ih => simp [Path.build, Path.content, RKey.builder, RKey.intoParts, ih]
+
+/-- **no construction path leaves a wrong memo**: if `hashed` is up, `hash` is the hash of the content -/
+theorem path_coherent (H : List Write → Nat) (p : Path) :
+    (p.build H).hashed = true → (p.build H).hash = generateKeyHash H p.content := by
+  induction p with
+  | fromParts n ls => intro _; rfl
+  | fromStatic n ls => intro h; simp [Path.build, RKey.static] at h
+  | withExtra p extra ih =>
+    cases extra with
+    | nil => simpa [Path.build, Path.content, RKey.withExtraLabels, RKey.clone] using ih
+    | cons e es =>
+      intro _
+      simp [Path.build, Path.content, RKey.withExtraLabels, RKey.builder, path_content H p]
+  | clone p ih => simpa [Path.build, Path.content, RKey.clone] using ih
+  | hashed p ih =>
+    simp only [Path.build, Path.content, RKey.getHash]
+    split
+    · simpa using ih
+    · intro _; simp [path_content H p]
+  | reparts p ih => intro _; simp [Path.build, Path.content, RKey.builder, RKey.intoParts, path_content H p]
+
+/-- `get_hash()` of a key obtained through any path is `generate_key_hash` of its content, and leaves a coherent key
+    with the same content behind -/
+theorem path_get_hash (H : List Write → Nat) (p : Path) :
+    ((p.build H).getHash H).1 = generateKeyHash H p.content
+    ∧ ((p.build H).getHash H).2.key = p.content
+    ∧ ((p.build H).getHash H).2.hashed = true := by
+  have hc := path_coherent H p
+  have hk := path_content H p
+  unfold RKey.getHash
+  split
+  · rename_i hh; exact ⟨hc hh, hk, hh⟩
+  · exact ⟨by rw [hk], hk, rfl⟩
+
+/-- **construction path irrelevant**: two keys obtained through ANY two paths whose contents are `==` (in particular:
+    the same content through different paths, or a permutation with distinct names) return the same `get_hash()`,
+    make the same `Hasher` calls and compare `Equal` -/
+theorem path_irrelevant (H : List Write → Nat) (p q : Path) (h : Key.eq p.content q.content = true) :
+    ((p.build H).getHash H).1 = ((q.build H).getHash H).1
+    ∧ hashStream (p.build H).key = hashStream (q.build H).key
+    ∧ Key.cmp (p.build H).key (q.build H).key = .eq := by
+  rw [(path_get_hash H p).1, (path_get_hash H q).1, path_content H p, path_content H q]
+  exact ⟨(eq_get_hash H _ _ h).1, eq_hash _ _ h, (eq_iff_cmp_eq _ _).1 h⟩
+
+/-- a key handed to threads after any construction path starts the step machine in a consistent state, so the
+    interleaving theorems (`get_hash_stable_mixed`, `clone_coherent`) apply to it -/
+theorem path_get_hash_stable (H : List Write → Nat) (p : Path) (roles : Nat → Role) (sched : List Nat) (t v : Nat)
+    (hdone : (run codeOrds (generateKeyHash H p.content)
+      (freshOf (p.build H).hashed (p.build H).hash roles) sched).pc t = .done v) :
+    v = generateKeyHash H p.content :=
+  get_hash_stable_mixed H p.content _ _ (path_coherent H p) roles sched t v hdone
+
 /-! ## tie to the source text (facts no run on x86 can show; regenerated from the repository on every check) -/
 
 /-- obligation: `Key::get_hash` in metrics/src/key.rs makes exactly the four atomic calls of the step machine,
@@ -344,6 +480,42 @@ theorem src_memo_private :
     Generated.key_memo_accesses_elsewhere = []
     ∧ Generated.key_memo_constructions = [("false", "0"), ("false", "0"), ("true", "hash")]
     ∧ Generated.key_builder_hash_from_name_and_labels = true := by decide
+
+/-- obligation: the comparison and hashing impls of `Key` define exactly one method each — `eq`, `partial_cmp`, `cmp`,
+    `hash` — (one impl per trait, none derived) so that `!=`, `<`, `<=`, `>`, `>=`, `max`, `min`, `clamp` are the provided
+    methods which `Key.ne … Key.clamp` of the model write out; `partial_cmp` is `Some(self.cmp(other))` and `Hash::hash`
+    is `key_hasher_impl` on the key's own name and labels (the function `generate_key_hash`, hence `get_hash`, runs) -/
+theorem src_cmp_methods :
+    Generated.key_trait_impl_methods
+      = [("PartialEq", ["eq"]), ("Eq", []), ("PartialOrd", ["partial_cmp"]), ("Ord", ["cmp"]), ("Hash", ["hash"])]
+    ∧ Generated.key_trait_impl_counts = [1, 1, 1, 1, 1]
+    ∧ Generated.key_derives = ["Debug"]
+    ∧ Generated.key_partial_cmp_body = "{Some(self.cmp(other))}"
+    ∧ Generated.key_hash_body = "{key_hasher_impl(state,&self.name,&self.labels);}" := by decide
+
+/-- obligation: what `Key`'s impls are built from compares and hashes by content.  `Label` and `KeyName` derive all of
+    `PartialEq, Eq, PartialOrd, Ord, Hash` (field by field: `Label.eq`, `Label.cmp`, `labelWrites` of the model) and have
+    no hand-written impl of any of them; `Cow`'s `eq`, `partial_cmp`, `cmp`, `hash` are the only methods of their impls
+    and forward to the `deref()`ed `str` / slice — the representation (static, owned, `Arc`) is not looked at -/
+theorem src_parts_by_content :
+    Generated.label_derives = ["Clone", "Debug", "Eq", "Hash", "Ord", "PartialEq", "PartialOrd"]
+    ∧ Generated.keyname_derives = ["Clone", "Debug", "Eq", "Hash", "Ord", "PartialEq", "PartialOrd"]
+    ∧ Generated.key_parts_manual_cmp_impls = []
+    ∧ Generated.cow_cmp_impls = [
+        ("PartialEq", ["eq"], "{self.deref()==other.deref()}"),
+        ("PartialOrd", ["partial_cmp"], "{PartialOrd::partial_cmp(self.deref(),other.deref())}"),
+        ("Ord", ["cmp"], "{Ord::cmp(self.deref(),other.deref())}"),
+        ("Hash", ["hash"], "{self.deref().hash(state)}")] := by decide
+
+/-- obligation: the memo is not even MENTIONED elsewhere — no occurrence of the identifier `hashed` and no
+    `Key { … hash … }` / `Self { … hash … }` pattern outside `get_hash`, `clone`, the struct definition and the three
+    constructions (a destructuring `let Key { hash: h, hashed: f, .. } = self` would read the memo without any
+    `.hash.load(` text); and `clone` is one struct literal without a single statement, whose loads of the memo —
+    counted with ANY receiver, not only `self` — are the flag, then the value -/
+theorem src_memo_unmentioned :
+    Generated.key_memo_mentions_elsewhere = []
+    ∧ Generated.key_clone_memo_calls_any_receiver = ["hashed.load", "hash.load"]
+    ∧ Generated.key_clone_is_one_struct_literal = true := by decide
 
 /-- `get_hash_stable` for the orderings found in the source -/
 theorem get_hash_stable_src (H : List Write → Nat) (k : Key) (n : Nat) (sched : List Nat) (t v : Nat) (o : Ords)
@@ -425,6 +597,22 @@ example : (run codeOrds 7 (freshOf true 0 (rolesOf [.hasher])) [0, 0]).pc 0 = .d
 /-- the ordering of the flag load in `clone()` matters as well: relaxed, it may pair `true` with a stale value -/
 example : (run { codeOrds with cloneFlagAcquire := false } 7 (freshOf false 0 (rolesOf [.cloner, .hasher]))
     [1, 1, 1, 0, 0, 0, 0]).pc 0 = .cloned true 0 := by decide
+
+/-- the operators on the repaired witness (`==` keys: not `!=`, `<=` and `>=` both hold, `max` is the second, `min` the
+    first argument) and on a strictly ordered pair -/
+example : Key.ne ⟨n, [la1, la2]⟩ ⟨n, [la2, la1]⟩ = false ∧ Key.le ⟨n, [la1, la2]⟩ ⟨n, [la2, la1]⟩ = true
+    ∧ Key.ge ⟨n, [la1, la2]⟩ ⟨n, [la2, la1]⟩ = true ∧ Key.lt ⟨n, [la1, la2]⟩ ⟨n, [la2, la1]⟩ = false
+    ∧ Key.max ⟨n, [la1, la2]⟩ ⟨n, [la2, la1]⟩ = ⟨n, [la2, la1]⟩ ∧ Key.min ⟨n, [la1, la2]⟩ ⟨n, [la2, la1]⟩ = ⟨n, [la1, la2]⟩
+    ∧ Key.lt ⟨n, [la1]⟩ ⟨n, [la2]⟩ = true ∧ Key.max ⟨n, [la2]⟩ ⟨n, [la1]⟩ = ⟨n, [la2]⟩
+    ∧ Key.clamp ⟨n, [lb3]⟩ ⟨n, [la1]⟩ ⟨n, [la2]⟩ = ⟨n, [la2]⟩ := by decide
+
+/-- construction paths: a static key extended by one label is eagerly hashed with the hash of the three labels; extended
+    by nothing it is a clone (still unhashed); after a `get_hash()` its clone carries the memo -/
+example : ((Path.withExtra (.fromStatic n [la1, la2]) [lb3]).build (fun ws => ws.length)).hashed = true
+    ∧ ((Path.withExtra (.fromStatic n [la1, la2]) [lb3]).build (fun ws => ws.length)).hash = 15
+    ∧ ((Path.withExtra (.fromStatic n [la1, la2]) []).build (fun ws => ws.length)) = ⟨⟨n, [la1, la2]⟩, false, 0⟩
+    ∧ ((Path.clone (.hashed (.fromStatic n [la1]))).build (fun ws => ws.length)) = ⟨⟨n, [la1]⟩, true, 7⟩
+    ∧ (Path.reparts (.withExtra (.fromParts n [la1]) [la2])).content = ⟨n, [la1, la2]⟩ := by decide
 
 /-- same key, different kinds: never `==`, never `Equal`; same kind: as the keys -/
 example : CompositeKey.eq ⟨.counter, ⟨n, [la1, la2]⟩⟩ ⟨.gauge, ⟨n, [la1, la2]⟩⟩ = false
